@@ -597,7 +597,7 @@ func Expect(op Op, p St, res Result) []Alt {
 				return "callback never invoked"
 			}
 			last := r.Cb[len(r.Cb)-1]
-			if last.Cas != p.Cas {
+			if last.Cas != p.Cas && op.Prev != "stale" {
 				return fmt.Sprintf("callback was shown cas %#x on its last invocation, current cas is %#x", last.Cas, p.Cas)
 			}
 			if !bytes.Equal(last.Body, p.Body) || (last.Body == nil) != (p.Body == nil) {
@@ -900,8 +900,7 @@ func expectSubdoc(op Op, p St, res Result, cc string) []Alt {
 	switch {
 	case p.HasBody():
 		var v any
-		dec := json.NewDecoder(bytes.NewReader(p.Body))
-		if dec.Decode(&v) != nil || dec.More() {
+		if json.Unmarshal(p.Body, &v) != nil {
 			return []Alt{{Name: "not-json", AnyErr: true, Same: true}}
 		}
 		m, ok := v.(map[string]any)
